@@ -37,7 +37,7 @@ def nats(s):
     return [int(x) for x in s.split()] if s.strip() else []
 
 
-DS_RE = re.compile(r"D(\d)\{ish=\[([^\]]*)\] lsh=\[([^\]]*)\] part=\[([^\]]*)\] lpart=\[([^\]]*)\] n=(\d+) el=\[([^\]]*)\] paths=(\S+?)\}")
+DS_RE = re.compile(r"D(\d)\{ish=\[([^\]]*)\] lsh=\[([^\]]*)\] part=\[([^\]]*)\] lpart=\[([^\]]*)\] n=(\d+) el=\[([^\]]*)\] paths=(\S+?)(?: ind=(\S+?))?\}")
 V_RE = re.compile(r"V(\d)\{(-|idx=\[([^\]]*)\] el=\[([^\]]*)\])\}")
 
 
@@ -48,7 +48,7 @@ def parse_state(line):
     for m in DS_RE.finditer(line):
         els = m.group(7).split()
         labels = [int(e.split(":")[1]) for e in els if ":" in e]
-        ds[int(m.group(1))] = {"part": nats(m.group(4)), "n": int(m.group(6)), "labels": labels}
+        ds[int(m.group(1))] = {"part": nats(m.group(4)), "n": int(m.group(6)), "labels": labels, "ind": m.group(9) or "11"}
     for m in V_RE.finditer(line):
         vs[int(m.group(1))] = None if m.group(2) == "-" else len(nats(m.group(3)))
     return status, ds, vs
@@ -59,7 +59,7 @@ def load_corpus(pid):
     out = []
     if os.path.isdir(d):
         for fn in sorted(os.listdir(d)):
-            if not fn.endswith(".txt"):
+            if not fn.endswith(".txt") or fn.startswith("open_"):     # open_*: minimal inputs of open findings, run on their own
                 continue
             ops = [l.strip() for l in open(os.path.join(d, fn)) if l.strip() and not l.startswith("#")]
             if ops:
